@@ -190,6 +190,38 @@ fn run_all(ctx: &mut Ctx) {
             },
         );
     }
+    // several contracts compiled by ONE call (the Starknet compiler fans them out over the rayon pool): the
+    // i-th class must belong to the i-th contract whatever the pool size and the completion order
+    ctx.case(
+        || json!({"space":"contracts-by-pool-size"}),
+        |ctx| {
+            let path = std::path::Path::new("/repo/crates/cairo-lang-starknet/cairo_level_tests");
+            let pools: Vec<usize> = tier.pick(vec![1, 8, 8], vec![1, 8, 8, 3, 16, 2]);
+            let mut first: Option<Vec<String>> = None;
+            for t in pools {
+                ctx.count("evaluations", 1);
+                ctx.distinct(&("contracts-by-pool-size", t, first.is_some()));
+                match crate::c19::classes_by_pool(path, t) {
+                    Err(e) => {
+                        ctx.note(format!("contracts-by-pool-size: {}", e.chars().take(200).collect::<String>()));
+                        return;
+                    }
+                    Ok(lines) => {
+                        ctx.max("contracts_in_one_call", lines.len() as i64);
+                        match &first {
+                            None => first = Some(lines),
+                            Some(f) if *f != lines => {
+                                let diff = f.iter().zip(&lines).find(|(a, b)| a != b).map(|(a, b)| format!("{a} vs {b}")).unwrap_or_default();
+                                ctx.violation("contract-classes-depend-on-pool-size", format!("the classes returned for one list of contracts differ with the rayon pool size: {diff}"), json!({"project": path.display().to_string(), "threads": t}));
+                                return;
+                            }
+                            _ => {}
+                        }
+                    }
+                }
+            }
+        },
+    );
     for p in PROJECTS.iter().take(nprojects) {
         // the task alphabet of this project (needs the number of functions: computed in a probe child)
         let mut probe_db = new_db(&Cfg::DEFAULT);
